@@ -892,6 +892,23 @@ def planeVerdict (o : List String) : String :=
               then s!"fail wrapper-differs-from-local-function-on-the-transformed-plane {a} {b}" else "fail unparsable-output"
   | _ => "fail unparsable-output"
 
+def fverdict : Split Unit → String
+  | .negative => "neg" | .positive => "pos" | .pair _ _ => "cut"
+
+/-- oracle for the `Negative` / `Positive` / cut decision of a mesh cut (both the split and the section routine), from the exact
+signed distances `S` of the (placed) vertices: `neg` ⇒ no vertex beyond `eps` on the positive side and some vertex on the negative
+side; `pos` ⇒ no vertex beyond `eps` on the negative side; cut ⇒ vertices on both sides (all within the rounding tolerance). -/
+def verdictOracle (S : List Rat) (e t : Rat) (o : List String) : String :=
+  match o with
+  | "panic" :: _ => "fail panic"
+  | ["hang"] => "fail hang-or-unbounded-allocation"
+  | [k1, k2] =>
+    let one (k : String) : String :=
+      if k == "neg" || k == "pos" then verdictCheck S e t k else if k == "cut" then verdictCheck S e t "pair" else "fail unparsable-output"
+    let r := one k1
+    if r != "pass" then r else one k2
+  | _ => "fail unparsable-output"
+
 def handler (fn : String) : Option Handler :=
   match fn with
   | "aabb_split" => some {
@@ -981,6 +998,39 @@ def handler (fn : String) : Option Handler :=
           if q eps < 0 then "skip negative-epsilon" else
           if !nearR N.normSq 1 then "skip non-unit-normal" else
           sectionOracle m (fun p => N.dot p - bi) (some (colourFloat n bias eps)) (q eps) (meshScale m bi) o
+        | none => "skip bad-args" }
+  | "tm_verdict" => some {
+      model := fun a => run (do let m ← pmeshIn; let n ← pv3; let bias ← pf; let eps ← pf; pend
+                                let k := fverdict (meshVerdict m.pts n bias eps); pure s!"{k} {k}") a
+      oracle := fun a o => match run (do let m ← pmeshIn; let n ← pv3; let bias ← pf; let eps ← pf; pend; pure (m, n, bias, eps)) a with
+        | some (m, n, bias, eps) =>
+          if !(m.pts.all finite3 && finite3 n && FloatIO.isFinite bias && FloatIO.isFinite eps) then "skip nonfinite-input" else
+          let N := q3 n; let bi := q bias
+          if q eps < 0 then "skip negative-epsilon" else
+          if !nearR N.normSq 1 then "skip non-unit-normal" else
+          verdictOracle ((m.pts.map q3).map fun p => N.dot p - bi) (q eps) (tol * meshScale m bi) o
+        | none => "skip bad-args" }
+  | "tm_verdict_pos" => some {
+      model := fun a => run (do let m ← pmeshIn; let pos ← piso3; let n ← pv3; let bias ← pf; let eps ← pf; pend
+                                let k := fverdict (meshVerdictPos m.pts pos n bias eps); pure s!"{k} {k}") a
+      oracle := fun a o => match run (do let m ← pmeshIn; let pos ← piso3; let n ← pv3; let bias ← pf; let eps ← pf; pend; pure (m, pos, n, bias, eps)) a with
+        | some (m, pos, n, bias, eps) =>
+          if !(m.pts.all finite3 && finite3 n && finite3 pos.t && FloatIO.isFinite bias && FloatIO.isFinite eps) then "skip nonfinite-input" else
+          let N := q3 n; let bi := q bias; let M := qiso3 pos
+          if q eps < 0 then "skip negative-epsilon" else
+          if !nearR N.normSq 1 then "skip non-unit-normal" else
+          if !unitQ pos then "skip non-unit-quaternion" else
+          verdictOracle ((m.pts.map q3).map fun p => N.dot (M.act p) - bi) (q eps) (tol * (meshScale m bi + maxAbs3 M.t)) o
+        | none => "skip bad-args" }
+  | "tm_verdict_canon" => some {
+      model := fun a => run (do let m ← pmeshIn; let ax ← pnat; let bias ← pf; let eps ← pf; pend
+                                if h : ax < 3 then (let k := fverdict (meshVerdictCanonical m.pts ⟨ax, h⟩ bias eps); pure s!"{k} {k}") else pure "panic") a
+      oracle := fun a o => match run (do let m ← pmeshIn; let ax ← paxis; let bias ← pf; let eps ← pf; pend; pure (m, ax, bias, eps)) a with
+        | some (m, ax, bias, eps) =>
+          if !(m.pts.all finite3 && FloatIO.isFinite bias && FloatIO.isFinite eps) then "skip nonfinite-input" else
+          let bi := q bias
+          if q eps < 0 then "skip negative-epsilon" else
+          verdictOracle ((m.pts.map q3).map fun p => p.get ax.val - bi) (q eps) (tol * meshScale m bi) o
         | none => "skip bad-args" }
   | "seg_canon_split" => some {
       model := fun a => run (do let p ← pv3; let p' ← pv3; let ax ← pnat; let bias ← pf; let eps ← pf
